@@ -274,7 +274,7 @@ class _FileModifyProxy:
     def copy(self, src, dst):
         """Copy src to dst."""
         if self.dry_run and self.root is not None:
-            print(_safe_relpath(src, self.root))
+            print(os.path.relpath(src, self.root))
         if os.path.islink(src) and not self.follow_symlinks:
             link_target = os.readlink(src)
             logger.more(
